@@ -330,3 +330,19 @@ package lexer
 //@   requires t.scanner != nil
 //@   ensures result1 == nil ==> result0.Pos.Filename == t.filename
 //@   ensures result1 != nil ==> result1 == t.err && result0 == Token{}
+
+// ---------------------------------------------------------------------------------------------
+// errors.go: the text of a lexing error is its position as [file:]line:col: followed by the message (C06)
+// ---------------------------------------------------------------------------------------------
+
+//@ func formatError [C06]
+//@   let lc string = result0 after call fmt.Sprintf#1
+//@   before call fmt.Sprintf#1: assert format == "%d:%d:" && len(a) == 2 && a[0] == iface(pos.Line) && a[1] == iface(pos.Column)
+//@   ensures pos.Filename == "" && pos.Line == 0 && pos.Column == 0 ==> result == message
+//@   ensures pos.Filename != "" && pos.Line == 0 && pos.Column == 0 ==> result == "" + (pos.Filename + ":") + (" " + message)
+//@   ensures pos.Filename == "" && (pos.Line != 0 || pos.Column != 0) ==> result == "" + lc + (" " + message)
+//@   ensures pos.Filename != "" && (pos.Line != 0 || pos.Column != 0) ==> result == "" + (pos.Filename + ":") + lc + (" " + message)
+
+//@ func (*Error).Error [C06]
+//@   requires e != nil
+//@   before call lexer.formatError#1: assert pos == e.Pos && message == e.Msg
